@@ -80,6 +80,9 @@ def check_string(ctx, s: str, multiline: bool, opts: dict, tag: str) -> None:
         # "escapes enabled" through the documented public attribute instead of the constructor argument
         tok = Tokenizer(text, **{k: v for k, v in opts.items() if k != '_enable_late' and k != 'allow_escapes'}, allow_escapes=False)
         tok.allow_escapes = True
+    elif opts.get('_blocks'):
+        n = opts['_blocks']
+        tok = Tokenizer([text[i:i + n] for i in range(0, len(text), n)], **{k: v for k, v in opts.items() if k != '_blocks'})
     else:
         tok = Tokenizer(text, **opts)
     got = list(tok)     # iteration stops at the first EOF
@@ -132,6 +135,9 @@ def execute_string(desc, ctx):
         check_string(ctx, s, multiline, {'allow_escapes': True}, 'default')
         check_string(ctx, s, multiline, dict(OTHER_OPTS, allow_escapes=True), 'other-options-flipped')
         check_string(ctx, s, multiline, {'allow_escapes': True, '_enable_late': True}, 'allow_escapes-set-as-attribute')
+        if len(s) >= 2:
+            for n in (2, 3, 5):
+                check_string(ctx, s, multiline, {'allow_escapes': True, '_blocks': n}, f'text-delivered-in-blocks-of-{n}')
 
 
 # ------------------------------------------------------------------ (b) random
@@ -179,7 +185,7 @@ def embed_cases(tier: str):
         st.tuples(st.just('q'), s).map(list),
         st.tuples(st.just('q'), s).map(list),
         st.tuples(st.just('b'), word).map(list),
-        st.tuples(st.just('nl'), st.sampled_from(['\n', '\r\n'])).map(list),
+        st.tuples(st.just('nl'), st.sampled_from(['\n', '\r\n', '\r', '\r'])).map(list),
         st.tuples(st.just('op'), st.sampled_from(['{', '}', ',', '=', '[', ']'])).map(list),
         st.tuples(st.just('flag'), word).map(list),
         st.tuples(st.just('comment'), st.text(st.sampled_from(WORD_CHARS + ' "\\/*'), max_size=8)).map(list),
@@ -221,6 +227,8 @@ def render(items, seps, multiline, string_bracket):
         sep = seps[i % len(seps)]
         if i and (kind == 'b' or prev_kind == 'b') and sep == '':
             sep = ' '   # a bare word swallows any adjacent non-terminator, keep it apart
+        if i and sep == '' and kind == 'nl' and val.startswith('\n') and items[i - 1][0] == 'nl' and items[i - 1][1].endswith('\r'):
+            sep = ' '   # a bare CR directly followed by LF would be ONE line break (CR-LF), keep them two
         if i:
             parts.append(sep)
         if kind == 'q':
@@ -274,11 +282,27 @@ def execute_embed(desc, ctx):
     if any('\n' in v or '\r' in v for v in quoted):
         ctx.label('value_has_linebreak')
     text, want = render(items, desc['seps'], multiline, string_bracket)
-    got = list(Tokenizer(text, **opts))
-    if got != want:
-        k = next((i for i, (a, b) in enumerate(zip(got, want)) if a != b), min(len(got), len(want)))
-        ctx.fail('embedded', f'fmt={fmt} multiline={multiline}: token {k} differs: got {got[k:k + 2]!r} want {want[k:k + 2]!r}\n'
-                             f' text={text!r}\n got ={got!r}\n want={want!r}', fmt=fmt, multiline=multiline)
+    if any(k == 'nl' and v == '\r' for k, v in items):
+        ctx.label('bare_cr_line_ending')
+    block = 2 + len(text) % 9          # the same text also as fixed-size blocks (file.read(N)) and per character
+    deliveries = [('str', text), (f'blocks-of-{block}', [text[i:i + block] for i in range(0, len(text), block)]),
+                  ('chars', list(text))]
+    bare_cr = any(k == 'nl' and v == '\r' for k, v in items)
+    if bare_cr:
+        # The statement is about the STRING tokens.  After a bare CR the pinned tokenizer drops the NEWLINE token of a
+        # following LF when only operator characters stand between them ('\r{\n' - observed, outside C02; DESIGN.md 3.2),
+        # so line-break tokens are not compared in lines that use bare CR endings.
+        want = [t for t in want if t[0] is not Token.NEWLINE]
+    for how, data in deliveries:
+        got = list(Tokenizer(data, **opts))
+        if bare_cr:
+            got = [t for t in got if t[0] is not Token.NEWLINE]
+        if got != want:
+            k = next((i for i, (a, b) in enumerate(zip(got, want)) if a != b), min(len(got), len(want)))
+            ctx.fail('embedded', f'fmt={fmt} multiline={multiline} delivery={how}: token {k} differs: got {got[k:k + 2]!r} '
+                                 f'want {want[k:k + 2]!r}\n text={text!r}\n got ={got!r}\n want={want!r}',
+                     fmt=fmt, multiline=multiline, delivery=how)
+            break
 
 
 def execute_kvparse(desc, ctx):
